@@ -19,11 +19,11 @@ from sim.model import emit, prog as progmod
 from sim.engines import render as R
 
 FOCI_BY_STRATUM = {
-    "clean": ["compcache", "misc", "media", "all"],
-    "provide": ["provide", "provide", "compcache", "all"],
+    "clean": ["compcache", "misc", "media", "classattr", "classattr", "all"],
+    "provide": ["provide", "provide", "compcache", "classattr", "all"],
     "lru": ["lru"],
     "media": ["media", "all"],
-    "mixed": ["provide", "compcache", "lru", "media", "misc", "all"],
+    "mixed": ["provide", "compcache", "lru", "media", "misc", "classattr", "all"],
 }
 ID_RE = re.compile(r"\b[0-9A-Za-z]{6}\b")
 
@@ -51,19 +51,30 @@ def draw_tasks(ch, params):
         gp["provide_bias"] = 4
     progs = []
 
-    def new_prog(assets=False):
+    def new_prog(assets=False, library_of=None):
         g = dict(gp, assets=assets, elems=assets, page_wrap=assets)
-        p = R.rename_program(progmod.generate(ch, g), f"q{len(progs)}")
+        if library_of is not None:
+            # a different page over the SAME component classes (class-level shared state is then really shared)
+            base = progs[library_of]
+            raw = progmod.generate(ch, dict(g, reuse_comps=base["raw_comps"]))
+            p = R.rename_program(raw, base["pfx"])
+            p["shares_classes_with"] = library_of
+        else:
+            raw = progmod.generate(ch, g)
+            p = R.rename_program(raw, f"q{len(progs)}")
+        p["raw_comps"] = raw["comps"]
+        p["pfx"] = p.get("pfx") or (progs[library_of]["pfx"] if library_of is not None else f"q{len(progs)}")
         p["mode"] = mode
         progs.append(p)
         return len(progs) - 1
 
     if stratum in ("clean", "provide", "mixed"):
         shared = ch.chance(1, 3, "shared_template")
+        shared_lib = (not shared) and ch.chance(1, 2, "shared_library")
         first = new_prog()
         for k in range(n):
             kind = "render"
-            pi = first if (shared or k == 0) else new_prog()
+            pi = first if (shared or k == 0) else new_prog(library_of=first if shared_lib else None)
             t = {"kind": kind, "prog": pi, "shared_template": shared, "fault_site": None, "exc": 0}
             if stratum in ("mixed", "provide") and k == n - 1 and ch.chance(1, 2, "failing_task"):
                 t["fault_at"] = 1 + ch.draw(6, "fault_at")
@@ -118,7 +129,12 @@ class Setup:
         self.w = R.start_world(knobs, spec["mode"])
         if spec["stratum"] == "lru":
             world.apply_config(mode=spec["mode"], template_cache_size=spec["lru_size"], cache_variant=knobs["cache_variant"])
-        self.classes = [emit.build_classes(p) for p in spec["progs"]]
+        self.classes = []
+        for p in spec["progs"]:
+            if p.get("shares_classes_with") is not None:
+                self.classes.append(self.classes[p["shares_classes_with"]])
+            else:
+                self.classes.append(emit.build_classes(p))
         self.shared_templates = {}
         for t in spec["tasks"]:
             if t.get("shared_template") and t["prog"] not in self.shared_templates:
@@ -373,7 +389,7 @@ def run(ch, params, decoded=False):
         out["decoded"] = {
             "knobs": knobs, "stratum": spec["stratum"], "mode": spec["mode"],
             "tasks": [{k_: v for k_, v in t.items()} for t in spec["tasks"]],
-            "programs": [R.decoded_program(p) for p in spec["progs"]],
+            "programs": [dict(R.decoded_program(p), shares_classes_with=p.get("shares_classes_with")) for p in spec["progs"]],
             "extra": {k_: spec[k_] for k_ in ("lru_size", "hier") if k_ in spec},
             "plan": plan, "solo_steps": solo["steps"], "solo_shared_steps": solo["shared"],
             "switches": [list(x) for x in s.switches[:60]], "results": results, "solo_results": solo["results"],
